@@ -53,12 +53,12 @@ theorem OldOutcome.site {f : Forest} {po : Nat} {vo : Value} {l : List HTree} {t
     {res : Forest × Bool} (h : OldOutcome f po l t r res) (so : SiteAt f po vo (l ++ t :: r))
     (hleaf : ∀ k ∈ l ++ t :: r, k.value.isText = true → k.kids = []) :
     ∃ l1 r1, SiteAt res.1 po vo (l1 ++ t :: r1) ∧ res.1 = f.editAt (some po) (fun _ => l1 ++ t :: r1) ∧
-      (handlesList (l1 ++ r1)).Sublist (handlesList (l ++ r)) ∧
+      ((handlesList l1).Sublist (handlesList l) ∧ (handlesList r1).Sublist (handlesList r)) ∧
       (∀ x, (∀ k ∈ l ++ r, k.value.isText = true → k.handle ≠ x) →
         findList? x l1 = findList? x l ∧ findList? x r1 = findList? x r) := by
   cases h with
   | same _ =>
-    refine ⟨l, r, so, ?_, List.Sublist.refl _, fun _ _ => ⟨rfl, rfl⟩⟩
+    refine ⟨l, r, so, ?_, ⟨List.Sublist.refl _, List.Sublist.refl _⟩, fun _ _ => ⟨rfl, rfl⟩⟩
     rw [so.congr (g := fun _ => l ++ t :: r) (g' := id) rfl, Forest.editAt_id]
   | merged l' a b r' x y hc el er hx hy hp hn ht =>
     subst el er
@@ -70,10 +70,11 @@ theorem OldOutcome.site {f : Forest} {po : Nat} {vo : Value} {l : List HTree} {t
         exact List.sublist_append_right _ _)
       simpa using this
     · simp
-    · simp only [handlesList_append, handlesList_cons, setValue_handles, handlesList_nil, List.append_nil,
-        List.append_assoc]
-      refine (List.Sublist.refl _).append ((List.Sublist.refl _).append ?_)
-      exact List.sublist_append_right _ _
+    · constructor
+      · simp only [handlesList_append, handlesList_cons, setValue_handles, handlesList_nil, List.append_nil]
+        exact List.Sublist.refl _
+      · rw [handlesList_cons]
+        exact List.sublist_append_right _ _
     · intro z hz
       have hza : a.handle ≠ z := hz a (by simp) (by rw [hx]; rfl)
       have hzb : b.handle ≠ z := hz b (by simp) (by rw [hy]; rfl)
